@@ -69,11 +69,28 @@ impl Machine for A64 {
 
     fn exec(&mut self, code: &[Code]) -> Exit {
         let mut labels = HashMap::new();
+        let mut addr_of: Vec<u64> = Vec::with_capacity(code.len());
+        let mut index_of: HashMap<u64, usize> = HashMap::new();
+        let mut a = crate::x86::CODE_BASE;
         for (i, c) in code.iter().enumerate() {
-            if let Code::LAB(l) = c {
-                labels.insert(l.clone(), i);
+            addr_of.push(a);
+            match c {
+                Code::LAB(l) => {
+                    labels.insert(l.clone(), i);
+                }
+                Code::TEXT | Code::GLOBAL(_) | Code::COMMENT(_) => {}
+                _ => {
+                    index_of.insert(a, i);
+                    a += 4;
+                }
             }
         }
+        let label_address = |l: &str| -> u64 {
+            match labels.get(l) {
+                Some(&i) => addr_of[i],
+                None => label_addr(l),
+            }
+        };
         let mut pc = 0usize;
         let mut steps = 0;
         while pc < code.len() {
@@ -142,7 +159,10 @@ impl Machine for A64 {
                     self.wr(*d, v)
                 }
                 B(l) => jump!(l),
-                BR(r) => return Exit::Reg(self.rd(*r)),
+                BR(r) => match index_of.get(&self.rd(*r)) {
+                    Some(&i) => pc = i,
+                    None => return Exit::Reg(self.rd(*r)),
+                },
                 BL(f) => {
                     if self.sp % 16 != 0 {
                         return Exit::Fault(format!("BL {f} with SP = {:#x} not 16-byte aligned", self.sp));
@@ -157,14 +177,14 @@ impl Machine for A64 {
                     let sp = self.sp;
                     let mut rng = self.rng.clone();
                     for (a, v) in self.mem.iter_mut() {
-                        if *a < sp {
+                        if *a < sp && *a >= sp.wrapping_sub(1 << 24) {
                             *v = rng.next();
                         }
                     }
                     self.rng = rng;
                     self.junk = self.rng.next();
                 }
-                ADR(d, l) => self.wr(*d, label_addr(l)),
+                ADR(d, l) => self.wr(*d, label_address(l)),
                 MOVR(d, a) => {
                     let v = self.rd(*a);
                     self.wr(*d, v)
